@@ -6,8 +6,8 @@ A mesh is a dict
    'tags': [...]}
 Coordinates are small integers (lattice, doubled so that cell centres are
 integral); element node orderings follow the FrontISTR/femio conventions with
-positive orientation (hex: bottom 0-3 ccw seen from above?? no — right-handed:
-(p1-p0)x(p3-p0).(p4-p0) > 0; tet: (p1-p0)x(p2-p0).(p3-p0) > 0).
+positive orientation (hex: (p1-p0)x(p3-p0).(p4-p0) > 0; tet:
+(p1-p0)x(p2-p0).(p3-p0) > 0).
 Every random choice comes from the `rng` handed in.
 """
 import itertools
@@ -180,7 +180,7 @@ KINDS = ['tri', 'quad', 'mixed2d', 'tet', 'hex', 'mixed3d', 'tet2', 'hex2', 'mix
 
 
 def gen_mesh(rng, kind=None, max_nodes=26, id_mode=None, components=None, n_unref=None):
-    kind = kind or rng.choice(KINDS)
+    kind = kind or rng.choice(KINDS + ['mixed2d', 'mixed3d', 'mixed3d', 'mixed3d2'])
     id_mode = id_mode or rng.choice(['seq', 'sparse', 'sparse', 'large'])
     components = components if components is not None else rng.choice([1, 1, 1, 2, 3])
     if n_unref is None:
@@ -189,12 +189,13 @@ def gen_mesh(rng, kind=None, max_nodes=26, id_mode=None, components=None, n_unre
         b = Builder()
         for comp in range(components):
             org = (20 * comp, 6 * comp, 0)
+            lo = 2 if kind.startswith('mixed') and comp == 0 else 1
             if kind in ('tri', 'quad', 'mixed2d'):
-                grid2d(b, rng, rng.randint(1, 3), rng.randint(1, 2), kind, org)
+                grid2d(b, rng, rng.randint(lo, 3), rng.randint(1, 2), kind, org)
             else:
                 base = {'tet': 'tet', 'hex': 'hex', 'mixed3d': 'mixed3d', 'tet2': 'tet',
                         'hex2': 'hex', 'mixed3d2': 'mixed3d'}[kind]
-                grid3d(b, rng, rng.randint(1, 2), rng.randint(1, 2), 1, base, org)
+                grid3d(b, rng, rng.randint(lo, 2), rng.randint(1, 2), 1, base, org)
         if kind in ('tet2', 'hex2', 'mixed3d2'):
             to_second_order(b, rng)
         if len(b.coords) + n_unref <= max_nodes:
